@@ -122,6 +122,14 @@ pub trait Engine: Sync {
     fn exhaustive_note(&self) -> Option<String> {
         None
     }
+    /// Narrow a failing scenario using what the violation says (before delta debugging).
+    fn focus(&self, _sc: &Self::Sc, _v: &Violation) -> Option<Self::Sc> {
+        None
+    }
+    /// What "evaluations" counts for this engine (default: scenarios).
+    fn evaluations(&self, _st: &Stats, scenarios: u64) -> u64 {
+        scenarios
+    }
 }
 
 #[derive(Serialize, Deserialize)]
@@ -155,6 +163,14 @@ pub fn minimise<E: Engine>(e: &E, sc: &E::Sc, target: &Violation, deadline: Inst
     let mut cur_v = target.clone();
     let mut steps = 0u64;
     let mut scratch = Stats::default();
+    if let Some(f) = e.focus(sc, target) {
+        let out = e.execute(&f, &mut scratch);
+        if let Some(v) = out.violations.iter().find(|v| v.kind == target.kind && v.signature == target.signature) {
+            cur = f;
+            cur_v = v.clone();
+            steps += 1;
+        }
+    }
     'outer: loop {
         if Instant::now() > deadline {
             break;
@@ -307,6 +323,7 @@ pub fn evidence_json<E: Engine>(
         }
     }
     let runs = total.evaluations;
+    let evaluations = e.evaluations(st, runs);
     let per_hour = if total.run_seconds > 0.0 { (runs as f64 / wall_s * 3600.0) as u64 } else { 0 };
     json!({
         "property_id": e.property(),
@@ -317,7 +334,7 @@ pub fn evidence_json<E: Engine>(
         "violations": new_violations,
         "known_findings_seen": known,
         "coverage": {
-            "evaluations": runs,
+            "evaluations": evaluations,
             "distinct_nontrivial": st.nontrivial.len(),
             "rule": e.rule(),
             "samples": st.samples,
